@@ -1,4 +1,4 @@
-import FluentProofs.SerializerSelect
+import FluentProofs.SerializerExtClass
 /-!
 # Serializer lemmas, part 14: whole resources (C04 / T3)
 
